@@ -172,11 +172,55 @@ let linalg_query (toks : string list) : string =
   | "PROP" :: _ -> "ok"
   | _ -> "?unknown-query"
 
+
+(* ---------------- C08 / C09a transfer operators ---------------- *)
+let ip_nr = ref 0 and ip_nth = ref 0
+let ip_rad : q array ref = ref [||] and ip_ang : q array ref = ref [||]
+let qsub (a : q) (b : q) : q = qt (qsc.ssub (tq a) (tq b))
+let qadd (a : q) (b : q) : q = qt (qsc.sadd (tq a) (tq b))
+let qzero = q_of_float 0.0
+let ip_h i = let i = int_of_z i in if i >= 0 && i + 1 < Array.length !ip_rad then tq (qsub !ip_rad.(i+1) !ip_rad.(i)) else tq qzero
+let ip_k j = let j = int_of_z j in if j >= 0 && j + 1 < Array.length !ip_ang then tq (qsub !ip_ang.(j+1) !ip_ang.(j)) else tq qzero
+
+let print_row2 (r : ((Big_int_Z.big_int * Big_int_Z.big_int) * Model.t) list) : string =
+  let tbl = Hashtbl.create 16 in
+  List.iter (fun ((a, b), w) ->
+    let key = (int_of_z a, int_of_z b) in
+    let old = try Hashtbl.find tbl key with Not_found -> qzero in
+    Hashtbl.replace tbl key (qadd old (qt w))) r;
+  let l = Hashtbl.fold (fun k v acc -> (k, v) :: acc) tbl [] in
+  let l = List.filter (fun (_, v) -> Big_int_Z.sign_big_int v.qnum <> 0) l in
+  let l = List.sort compare l in
+  String.concat " " (List.map (fun ((a, b), v) -> Printf.sprintf "%d,%d,%s" a b (qhex v)) l)
+
+let interp_query (toks : string list) : string =
+  match toks with
+  | "GRID" :: nr :: nth :: "|" :: rest ->
+    (match fields rest with
+     | [radii; angles] ->
+       ip_nr := ios nr; ip_nth := ios nth;
+       ip_rad := Array.of_list (List.map qf radii); ip_ang := Array.of_list (List.map qf angles);
+       Printf.sprintf "%d %d" ((!ip_nr + 1) / 2) (!ip_nth / 2)
+     | _ -> "?bad-GRID")
+  | ["ROW"; op; a; b] ->
+    let nr = z_of_int !ip_nr and nth = z_of_int !ip_nth in
+    let a = zs a and b = zs b in
+    (match op with
+     | "P" | "P0" -> print_row2 (q_P_row nth ip_h ip_k a b)
+     | "R" | "R0" -> print_row2 (q_R_row nr nth ip_h ip_k a b)
+     | "Pex" | "Pex0" -> print_row2 (q_Pex_row nth a b)
+     | "Rex" | "Rex0" -> print_row2 (q_Rex_row nr nth a b)
+     | "Inj" -> print_row2 (q_Inj_row a b)
+     | "FMG" -> print_row2 (q_FMG_row nr nth ip_h ip_k a b)
+     | _ -> "?unknown-op")
+  | _ -> "?unknown-query"
+
 let () =
   let mode = if Array.length Sys.argv > 1 then Sys.argv.(1) else "" in
   let handler = match mode with
     | "grid" -> grid_query
     | "linalg" -> linalg_query
+    | "interp" -> interp_query
     | _ -> prerr_endline ("unknown mode " ^ mode); exit 2 in
   try
     while true do
